@@ -66,7 +66,14 @@ class Variable:
 
     def _segments_str(self, segments: Segments) -> str:
         it = iter(segments)
-        buf = [str(next(it))]
+        root = next(it)
+        if isinstance(root, list):
+            # The name of the variable is the value of another variable.
+            buf = [f"[{self._segments_str(root)}]"]
+        elif isinstance(root, str) and RE_PROPERTY.fullmatch(root):
+            buf = [root]
+        else:
+            buf = [f"[{root!r}]"]
 
         for segment in it:
             if isinstance(segment, list):
